@@ -9,6 +9,7 @@ SETS = {
     "grouped": ["hello", "stop", "get-led", "exit", "get-adc", "go"],
     "tiny": ["ab", "aé", "b"],
     "wide": ["led-開", "led-閉", "go-😀", "go-😁", "€a", "€"],
+    "grouped2": ["get", "set", "get-led", "get-adc", "reset", "set-all"],
 }
 
 KEY_BYTES = {
@@ -35,7 +36,14 @@ def text_bytes(s):
 
 
 def chunk(rng, texts=OUT_TEXTS, methods=("w", "wl", "u", "f", "fc", "uc")):
-    return {"m": rng.choice(methods), "t": text_bytes(rng.choice(texts))}
+    m = rng.choice(methods)
+    c = {"m": m, "t": text_bytes(rng.choice(texts))}
+    if m in ("le", "ti"):
+        # Writer::write_list_element(name, description, width) / write_title: single-line texts, any width
+        c["t"] = text_bytes(rng.choice(["name", "", "longer-name", "ж", "x"]))
+        c["d"] = text_bytes(rng.choice(["", "does things", "описание"]))
+        c["w"] = rng.choice([0, 1, 4, 6, 11, 40])
+    return c
 
 
 def handler_script(rng, p_out, p_prompt, texts=OUT_TEXTS, methods=("w", "wl", "u", "f", "fc", "uc")):
@@ -66,7 +74,7 @@ def gen_session(rng, sid, prof):
            "poison": prof.get("poison", False), "rawproc": rng.random() < prof.get("rawproc", 0.3)}
     # now and then construct the Cli in the other ways the API offers (array buffers, builder defaults, Cli::new)
     if rng.random() < prof.get("ctor_mix", 0.12):
-        cfg["ctor"] = rng.choice(["default", "arrays", "arrays", "new"])
+        cfg["ctor"] = rng.choice(["default", "arrays", "promptfirst", "promptfirst", "new"])
     enter_forms = prof.get("enter_forms", [[13]])
     texts = prof.get("texts", OUT_TEXTS)
     methods = prof.get("methods", ("w", "wl", "u", "f", "fc", "uc"))
